@@ -137,6 +137,9 @@ ps_sum32(const unsigned char *d, size_t n, uint32_t init)
     return init;
 }
 
+/* initial value of the 32-bit algorithm (a unit may choose it so that an image gets a particular checksum) */
+static uint32_t ps_sum32_init = 0x12345678u;
+
 /* ---- independent references ---- */
 enum { CK_DEFAULT, CK_CRC16, CK_SUM32, NCK };
 static const char *ps_ckname[] = { "default-sum16", "crc16-arc", "sum32" };
@@ -159,7 +162,7 @@ ps_ref(int ck, const unsigned char *d, size_t n)
         }
         return crc;
     }
-    return ps_sum32(d, n, 0x12345678u);
+    return ps_sum32(d, n, ps_sum32_init);
 }
 
 static size_t
@@ -209,7 +212,7 @@ ps_select_sum(PersistentStorage *st, int ck, int explicit_default)
     if (ck == CK_CRC16)
         persistent_sum16(st, ps_crc16, 0);
     else if (ck == CK_SUM32)
-        persistent_sum32(st, ps_sum32, 0x12345678u);
+        persistent_sum32(st, ps_sum32, ps_sum32_init);
     else if (explicit_default)
         persistent_sum16(st, ps_triv16, 0);
 }
